@@ -50,18 +50,81 @@ theorem SqAt.eq_zero_iff {sq : Rat → Rat} {y : Rat} (h : SqAt sq y) : sq y = 0
     rw [h0]
     exact mul_self_eq_zero.mp this
 
+/-- What the theorems assume of `Vector::Norm()` at the axis: the coded norm is the exact non-negative
+    root of `a·a`.  It follows from `SqAt` at the one argument the code hands to `sqrt`
+    (`norm3_scaled_noop`): the power-of-two scaling of 8a680df is value-neutral over the rationals. -/
+structure NormAt (sq : Rat → Rat) (a : V3) : Prop where
+  mul_self : norm3 sq a * norm3 sq a = a.dot a
+  nonneg : 0 ≤ norm3 sq a
+
+theorem rabs_nonneg (x : Rat) : 0 ≤ rabs x := by unfold rabs; split <;> linarith
+theorem rabs_eq_zero {x : Rat} (h : rabs x = 0) : x = 0 := by
+  unfold rabs at h; split at h <;> linarith
+theorem le_rmax_left (x y : Rat) : x ≤ rmax x y := by unfold rmax; split <;> linarith
+theorem le_rmax_right (x y : Rat) : y ≤ rmax x y := by unfold rmax; split <;> linarith
+
+theorem maxAbs3_eq_zero {a : V3} (h : maxAbs3 a = 0) : a.x = 0 ∧ a.y = 0 ∧ a.z = 0 := by
+  unfold maxAbs3 at h
+  have hz := le_rmax_right (rmax (rmax 0 (rabs a.x)) (rabs a.y)) (rabs a.z)
+  have h1 := le_rmax_left (rmax (rmax 0 (rabs a.x)) (rabs a.y)) (rabs a.z)
+  have hy := le_rmax_right (rmax 0 (rabs a.x)) (rabs a.y)
+  have h2 := le_rmax_left (rmax 0 (rabs a.x)) (rabs a.y)
+  have hx := le_rmax_right 0 (rabs a.x)
+  refine ⟨rabs_eq_zero ?_, rabs_eq_zero ?_, rabs_eq_zero ?_⟩
+  · have := rabs_nonneg a.x; linarith
+  · have := rabs_nonneg a.y; linarith
+  · have := rabs_nonneg a.z; linarith
+
+/-- **8a680df is value-neutral over the rationals**: with the root exact at the scaled sum of squares
+    (the only argument the code passes to `sqrt`), the coded `Vector::Norm()` is the non-negative root
+    of `a·a`, whatever power of two the components were scaled by. -/
+theorem norm3_scaled_noop {sq : Rat → Rat} (a : V3)
+    (h : SqAt sq ((a.divs (pow2 (frexpExp (maxAbs3 a)))).dot (a.divs (pow2 (frexpExp (maxAbs3 a)))))) :
+    NormAt sq a := by
+  have hp : pow2 (frexpExp (maxAbs3 a)) ≠ 0 := by unfold pow2; exact zpow_ne_zero _ (by norm_num)
+  have hp0 : 0 ≤ pow2 (frexpExp (maxAbs3 a)) := by unfold pow2; exact zpow_nonneg (by norm_num) _
+  by_cases h0 : maxAbs3 a = 0
+  · obtain ⟨hx, hy, hz⟩ := maxAbs3_eq_zero h0
+    constructor <;> simp [norm3, h0, V3.dot, hx, hy, hz]
+  · constructor
+    · simp only [norm3, if_neg h0]
+      have := h.sq_mul
+      generalize pow2 (frexpExp (maxAbs3 a)) = p at *
+      generalize hS : sq ((a.divs p).dot (a.divs p)) = S at *
+      have hd : (a.divs p).dot (a.divs p) * (p * p) = a.dot a := by
+        simp only [V3.divs, V3.dot]; field_simp
+      rw [← hd, ← this]; ring
+    · simp only [norm3, if_neg h0]
+      exact mul_nonneg hp0 h.sq_nonneg
+
+/-- two non-negative numbers with the same square are equal -/
+theorem eq_of_mul_self_eq {x t : Rat} (hx : 0 ≤ x) (ht : 0 ≤ t) (h : x * x = t * t) : x = t := by
+  have h3 : (x - t) * (x + t) = 0 := by linear_combination h
+  rcases mul_eq_zero.mp h3 with h4 | h4
+  · linarith
+  · have : x = 0 := by linarith
+    have : t = 0 := by linarith
+    linarith
+
+theorem NormAt.unique {sq : Rat → Rat} {a : V3} (h : NormAt sq a) {t : Rat} (ht : 0 ≤ t) (hy : t * t = a.dot a) :
+    norm3 sq a = t :=
+  eq_of_mul_self_eq h.nonneg ht (by rw [h.mul_self, hy])
+
 /-- the norm of a non-zero vector is non-zero and squares to the dot product -/
-theorem norm3_mul_self {sq : Rat → Rat} (a : V3) (h : SqAt sq (a.dot a)) : norm3 sq a * norm3 sq a = a.dot a :=
-  h.sq_mul
+theorem norm3_mul_self {sq : Rat → Rat} (a : V3) (h : NormAt sq a) : norm3 sq a * norm3 sq a = a.dot a :=
+  h.mul_self
 
-theorem norm3_ne_zero {sq : Rat → Rat} (a : V3) (h : SqAt sq (a.dot a)) (ha : a.dot a ≠ 0) : norm3 sq a ≠ 0 :=
-  h.ne_zero ha
+theorem norm3_ne_zero {sq : Rat → Rat} (a : V3) (h : NormAt sq a) (ha : a.dot a ≠ 0) : norm3 sq a ≠ 0 := by
+  intro h0
+  have := h.mul_self
+  rw [h0] at this
+  exact ha (by linarith)
 
-theorem norm3_pos {sq : Rat → Rat} (a : V3) (h : SqAt sq (a.dot a)) (ha : a.dot a ≠ 0) : 0 < norm3 sq a :=
-  lt_of_le_of_ne h.sq_nonneg (Ne.symm (norm3_ne_zero a h ha))
+theorem norm3_pos {sq : Rat → Rat} (a : V3) (h : NormAt sq a) (ha : a.dot a ≠ 0) : 0 < norm3 sq a :=
+  lt_of_le_of_ne h.nonneg (Ne.symm (norm3_ne_zero a h ha))
 
 /-- `Normalized()` of a non-zero vector is a unit vector -/
-theorem normalize3_unit {sq : Rat → Rat} (a : V3) (h : SqAt sq (a.dot a)) (ha : a.dot a ≠ 0) :
+theorem normalize3_unit {sq : Rat → Rat} (a : V3) (h : NormAt sq a) (ha : a.dot a ≠ 0) :
     (normalize3 sq a).dot (normalize3 sq a) = 1 := by
   have hN := norm3_mul_self a h
   have hN0 := norm3_ne_zero a h ha
@@ -70,7 +133,7 @@ theorem normalize3_unit {sq : Rat → Rat} (a : V3) (h : SqAt sq (a.dot a)) (ha 
   linear_combination -hN
 
 /-- … and the vector is its norm times it -/
-theorem smul_normalize3 {sq : Rat → Rat} (a : V3) (h : SqAt sq (a.dot a)) (ha : a.dot a ≠ 0) :
+theorem smul_normalize3 {sq : Rat → Rat} (a : V3) (h : NormAt sq a) (ha : a.dot a ≠ 0) :
     V3.smul (norm3 sq a) (normalize3 sq a) = a := by
   have hN0 := norm3_ne_zero a h ha
   ext <;> simp only [normalize3, V3.divs, V3.smul] <;> field_simp
